@@ -18,6 +18,13 @@ def run_job(kind, key):
     catc.bind_world(w)
     table, impls, virtuals = catc.cat_contracts()
     I = Interp(w, table)
+    if key == '_type_check':
+        c = pp.TypeCheckFull()
+        I.contracts[c.name] = c
+        recs, npaths = verify_contract(I, c, PROP)
+        for r in recs:
+            r['witness'] = dict(function=c.name)
+        return dict(job=key, records=recs + pp.run_call_order(PROP), paths=npaths, lib=sorted(I.used_lib))
     c = pp.Chunks()
     I.contracts[c.name] = c
     recs, npaths = verify_contract(I, c, PROP)
@@ -27,7 +34,7 @@ def run_job(kind, key):
 def main(tier='quick', seed=0):
     t0 = time.time()
     records, errors, info = cxx.records_for(PROP)        # memo soundness of the two rule-cache lambdas of parsing.h
-    results = engine.run_jobs('props.c11', [('contract', '_chunks')])
+    results = engine.run_jobs('props.c11', [('contract', '_chunks'), ('contract', '_type_check')])
     for r in results:
         records.extend(r.get('records', []))
         if r.get('error'):
@@ -35,9 +42,12 @@ def main(tier='quick', seed=0):
     assumptions = [
         'deductive part 1: _chunks yields non-empty, contiguous, in-order slices covering the list (one arbitrary iteration of range(0, n, splits); math.ceil(a / b) = exact ceiling division for 0 < b, len < 2**53)',
         'deductive part 2: the rule-cache lambdas of parsing.h store the vector filled by scaffold unchanged under (x, y) and return the stored vector; on a hit nothing is called (memo soundness); with pure grammar callbacks (C14) cached and fresh answers coincide',
+        'deductive part 3: _type_check (lists of sentences / score objects, executed over symbolic collections with the arbitrary-sentence loop rule) returns its arguments only if the counts agree and the sentence fits its matrices '
+        '(tag: tokens x len(categories), dep: tokens x tokens + 1) and raises RuntimeError only for a real mismatch; run() calls it first, on the arguments as given (call-order obligation on the ast); '
+        'frame of *config in parse_sentence (CxxVC)',
         'history / schedule independence, alignment under every chunking, placeholders for too long / unparseable sentences and shape rejection before parsing are decided by the BOUNDED differential run on the real code '
         '(parsing.h compiled, DePyx text of parsing.pyx, depccg/parsing.py with an in-process stand-in for multiprocessing.Pool); real OS-level process scheduling is not modelled',
     ]
-    extra = dict(functions_under_contract=['depccg/parsing.py::_chunks', 'depccg/parsing.h::parse_sentence::apply_binary_rules (lambda)', 'depccg/parsing.h::parse_sentence::apply_unary_rules (lambda)'],
-                 bounded_functions=['depccg/parsing.py::run / _type_check', 'depccg/parsing.pyx::run (DePyx)'], cxx=info)
+    extra = dict(functions_under_contract=['depccg/parsing.py::_chunks', 'depccg/parsing.py::_type_check (list form)', 'depccg/parsing.py::run (call order of the shape check)', 'depccg/parsing.h::parse_sentence (frame of *config)', 'depccg/parsing.h::parse_sentence::apply_binary_rules (lambda)', 'depccg/parsing.h::parse_sentence::apply_unary_rules (lambda)'],
+                 bounded_functions=['depccg/parsing.py::run (chunking, collection, single-sentence form)', 'depccg/parsing.pyx::run (DePyx)'], cxx=info)
     return c12.finish_with(PROP, tier, seed, t0, records, errors, extra, assumptions, ['pyx_real.py'], level='exploration')
